@@ -266,7 +266,7 @@ def make_plan(seed: int, tier: str, index: int) -> dict[str, Any]:
             op["abort"] = {"at": int(f.choice([f.randint(1, 50), f.randint(1, 800),
                                                f.randint(1, 2500), f.randint(1, 2500),
                                                f.randint(1, 6000)])),
-                           "exc": f.choice(["SimAbort", "MemoryError", "MemoryError"])}
+                           "exc": f.choice(["SimAbort", "MemoryError", "MemoryError", "OSError", "RuntimeError"])}
             if f.random() < 0.5:
                 # targeted: k-th pre-emption point inside frames of a given family of functions
                 op["abort"]["in"] = f.choice(ABORT_TARGETS)
@@ -276,7 +276,8 @@ def make_plan(seed: int, tier: str, index: int) -> dict[str, Any]:
         # log handler fails on the k-th record, the selection sequence raises on its k-th access,
         # the reader raises from read()
         for _ci, _k, op in f.sample(all_ops, min(len(all_ops), f.randint(1, 3))):
-            exc = f.choice(["SimAbort", "MemoryError", "MemoryError", "KeyboardInterrupt"])
+            exc = f.choice(["SimAbort", "MemoryError", "MemoryError", "KeyboardInterrupt", "OSError",
+                            "RuntimeError"])
             kind = f.choice(["log", "log", "log", "select", "select", "reader", "reenter", "reenter"])
             if kind == "reenter":
                 # the application's log handler parses another chart (same thread, nested inside
